@@ -69,7 +69,7 @@ func VerifC01Docs() {
 	}
 	ctx := context.Background()
 	doc := func(k string) map[string]interface{} {
-		return map[string]interface{}{"_id": k, "v": string([]byte{vstub.NdByte("v")})}
+		return map[string]interface{}{"_id": k, "v": string([]byte{vstub.NdASCII("v")})}
 	}
 	write := func(r *vstubodb.Replica) {
 		ds := r.Store.(*orbitDBDocumentStore)
@@ -180,7 +180,7 @@ func VerifC07ReadDuringWrite() {
 	}
 	all := func(interface{}) (bool, error) { return true, nil }
 	// initial state: one document, read once (so that anything cached is warm)
-	if _, err := ds.Put(ctx, doc("k1", vstub.NdByte("v0"))); err != nil {
+	if _, err := ds.Put(ctx, doc("k1", vstub.NdASCII("v0"))); err != nil {
 		vstub.Fail("C07 Put failed")
 		return
 	}
@@ -200,12 +200,12 @@ func VerifC07ReadDuringWrite() {
 	vstub.FaultAtAnyStep(func() { fired = true; go reader() })
 	switch vstub.NdChoice("write", 4) {
 	case 0:
-		if _, err := ds.Put(ctx, doc("k1", vstub.NdByte("v1"))); err != nil {
+		if _, err := ds.Put(ctx, doc("k1", vstub.NdASCII("v1"))); err != nil {
 			vstub.Fail("C07 Put failed")
 		}
 		vstub.Cover("put")
 	case 1:
-		if _, err := ds.PutAll(ctx, []interface{}{doc("k1", vstub.NdByte("v1")), doc("k2", vstub.NdByte("v2"))}); err != nil {
+		if _, err := ds.PutAll(ctx, []interface{}{doc("k1", vstub.NdASCII("v1")), doc("k2", vstub.NdASCII("v2"))}); err != nil {
 			vstub.Fail("C07 PutAll failed")
 		}
 		vstub.Cover("put-all")
@@ -217,7 +217,7 @@ func VerifC07ReadDuringWrite() {
 	case 3:
 		// a batch written by another replica is merged
 		bs := b.Store.(*orbitDBDocumentStore)
-		if _, err := bs.Put(ctx, doc("k2", vstub.NdByte("v2"))); err != nil {
+		if _, err := bs.Put(ctx, doc("k2", vstub.NdASCII("v2"))); err != nil {
 			vstub.Fail("C07 remote Put failed")
 		}
 		a.SyncFrom(b)
